@@ -35,7 +35,7 @@ def precheck(case):
 
 
 def budget(tier):
-    return 4500 if tier == "quick" else 8000
+    return 6000 if tier == "quick" else 10000
 
 
 def strategy(tier):
